@@ -39,7 +39,8 @@ CONSTANTS Accts,      \* account ids, e.g. {1, 2}
           Mode,       \* "split" (Add and RunReorg separate: design run) | "sync" (glued: generation)
           Alpha,      \* "full" | "small": the alphabet of the synchronous actions (bounded-exhaustive generation uses "small")
           Slim,       \* TRUE: only account 1 uses the whole transaction alphabet (smaller design runs)
-          Strict      \* TRUE: the invariants are not weakened by the known-finding classes
+          Strict,     \* TRUE: the invariants are not weakened by the known-finding classes
+          HoleRepair  \* TRUE = demoteUnexecutables also postpones everything above a hole (repaired code, findings/C20_proposed_repair.patch)
 
 VARIABLES s,          \* the pool: [pend, que, all, loc, pn, sn, sb, gp]
           work,       \* reorg work requested and not yet run: [dirty: set of accounts, reset: <<>> or <<newsn, newsb, reinject>>]
@@ -172,9 +173,12 @@ DemoteF(st, a) ==
             inv  == IF dr = {} THEN {} ELSE { t \in l1 \ dr : t.n > Min(NoncesOf(dr)) }
             l2   == l1 \ (dr \cup inv)
             s1   == EnqueueAll([st EXCEPT !.pend[a] = l2, !.all = @ \ (olds \cup dr)], inv)
-        IN IF l2 # {} /\ At(l2, st.sn[a]) = {}
-           THEN EnqueueAll([s1 EXCEPT !.pend[a] = {}], l2)       \* a gap in front: postpone everything
-           ELSE s1
+            s2   == IF l2 # {} /\ At(l2, st.sn[a]) = {}
+                    THEN EnqueueAll([s1 EXCEPT !.pend[a] = {}], l2)       \* a gap in front: postpone everything
+                    ELSE s1
+            l3   == s2.pend[a]
+            keep == IF l3 = {} THEN {} ELSE Run(l3, Min(NoncesOf(l3)))    \* the contiguous prefix
+        IN IF HoleRepair /\ keep # l3 THEN EnqueueAll([s2 EXCEPT !.pend[a] = keep], l3 \ keep) ELSE s2
 
 RECURSIVE DemoteAll(_, _)
 DemoteAll(st, A) == IF A = {} THEN st ELSE LET a == CHOOSE x \in A : TRUE IN DemoteAll(DemoteF(st, a), A \ {a})
